@@ -493,6 +493,19 @@ public:
       }
     }
 
+    if (b.is_mem()) {
+      if (inst_id == Inst::kIdTest) {
+        // There is no `test reg, mem` form - operands of test are commutative.
+        cc->emit(inst_id, b, a);
+        return;
+      }
+      if (inst_id == Inst::kIdBt || inst_id == Inst::kIdShr) {
+        Gp tmp = uc.new_similar_reg(a.as<Gp>(), "@b");
+        cc->mov(tmp, b.as<Mem>());
+        b = tmp;
+      }
+    }
+
     if (inst_id == Inst::kIdShr && b.is_reg()) {
       cc->emit(inst_id, a, b.as<Gp>().r8());
       return;
